@@ -747,3 +747,132 @@ Proof.
   pose proof (modify_ase_variance true kT mass src zm sigp z Hz HF Hl) as V.
   revert V. apply Forall2_weaken. intros vc zc H. apply Forall2_times_one. exact H.
 Qed.
+
+(* ------------------------------------------------------------------ source files without velocities / box entry *)
+Lemma modify_std_col_lengths e mass src ek zm sig z n :
+  length sig = n -> Forall (fun zc => length zc = n) z ->
+  Forall (fun c => length c = n) (f_vel (r_frame (modify_std e mass src ek zm sig z))).
+Proof.
+  intros Hs Hz. unfold modify_std. cbn [r_frame f_vel].
+  assert (L1 : Forall (fun c => length c = n) (map (draw_col sig) z)).
+  { apply Forall_forall. intros c1 H1. apply in_map_iff in H1. destruct H1 as (zc & <- & Hin).
+    rewrite draw_col_length. rewrite Forall_forall in Hz. rewrite (Hz zc Hin). lia. }
+  assert (L2 : Forall (fun c => length c = n)
+                 (match vscale e with Some s => map (unscale_col s) (map (draw_col sig) z)
+                                    | None => map (draw_col sig) z end)).
+  { destruct (vscale e) as [s|]; [|exact L1].
+    apply Forall_forall. intros c2 H2. apply in_map_iff in H2. destruct H2 as (c1 & <- & Hin).
+    unfold unscale_col. rewrite map_length. rewrite Forall_forall in L1. auto. }
+  destruct (use_zm e zm); [|exact L2].
+  apply Forall_forall. intros c3 H3. apply in_map_iff in H3. destruct H3 as (c2 & <- & Hin).
+  unfold reset_col. rewrite map_length. rewrite Forall_forall in L2. auto.
+Qed.
+
+Lemma map_firstn_id n (v : list col) : Forall (fun c => length c = n) v -> map (firstn n) v = v.
+Proof.
+  induction 1 as [|c v Hc _ IH]; cbn; [reflexivity|].
+  rewrite IH. f_equal. apply firstn_all2. lia.
+Qed.
+
+Lemma vel_lines_special e c :
+  (forall v, c_vel c = Some v -> col_len v = c_npart c) -> vel_lines e true c = c_npart c.
+Proof.
+  intros H. unfold vel_lines. destruct e; try reflexivity.
+  destruct (c_vel c) as [v|]; [apply H; reflexivity|reflexivity].
+Qed.
+
+(* with the special case in place, genvel.<ext> holds exactly the velocities the operation
+   produced (one line per atom), whether or not the source file had velocities / a box entry *)
+Lemma modify_file_complete e dflt mass c ek zm sig z :
+  length sig = c_npart c -> Forall (fun zc => length zc = c_npart c) z ->
+  (forall v, c_vel c = Some v -> col_len v = c_npart c) ->
+  modify_file e true dflt mass c ek zm sig z = modify_std e mass (read_cfile dflt c) ek zm sig z.
+Proof.
+  intros Hs Hz Hv. unfold modify_file. cbv zeta.
+  rewrite (vel_lines_special e c Hv).
+  rewrite (map_firstn_id _ _ (modify_std_col_lengths e mass (read_cfile dflt c) ek zm sig z _ Hs Hz)).
+  destruct (modify_std e mass (read_cfile dflt c) ek zm sig z) as [[p v b i] k d o]. reflexivity.
+Qed.
+
+Lemma modify_file_kin_written e dflt mass c ek zm sig z :
+  length sig = c_npart c -> Forall (fun zc => length zc = c_npart c) z ->
+  (forall v, c_vel c = Some v -> col_len v = c_npart c) ->
+  let r := modify_file e true dflt mass c ek zm sig z in
+  r_kin_new r = kinetic mass (f_vel (r_frame r)) /\
+  Forall (fun vc => length vc = c_npart c) (f_vel (r_frame r)) /\
+  f_pos (r_frame r) = c_pos c /\ f_ids (r_frame r) = c_ids c /\
+  f_box (r_frame r) = (match c_box c with Some b => b | None => dflt end).
+Proof.
+  intros Hs Hz Hv. cbv zeta. rewrite (modify_file_complete e dflt mass c ek zm sig z Hs Hz Hv).
+  split; [apply dek_consistent_std|]. split; [apply modify_std_col_lengths; assumption|].
+  unfold modify_std, read_cfile. cbn. auto.
+Qed.
+
+Lemma sumQ_zero l : Forall (fun x => x == 0) l -> sumQ l == 0.
+Proof.
+  induction 1 as [|x l Hx _ IH]; [reflexivity|]. rewrite sumQ_cons, Hx, IH. reflexivity.
+Qed.
+
+Lemma map2_mult_zero_r : forall a b, Forall (fun x => x == 0) b -> Forall (fun x => x == 0) (map2 Qmult a b).
+Proof.
+  induction a as [|x a IH]; intros [|y b] H; cbn [map2]; try constructor.
+  - inversion H as [|? ? Hy Hb]; subst. rewrite Hy. ring.
+  - inversion H; subst. apply IH. assumption.
+Qed.
+
+Lemma kin_col_zero m (pc : col) : kin_col m (map (fun _ => 0) pc) == 0.
+Proof.
+  unfold kin_col. rewrite sumQ_zero; [ring|].
+  apply map2_mult_zero_r. apply Forall_forall. intros x Hx. apply in_map_iff in Hx.
+  destruct Hx as (? & <- & _). reflexivity.
+Qed.
+
+Lemma kinetic_zero_cols m p : kinetic m (zero_cols p) == 0.
+Proof.
+  unfold kinetic, zero_cols. apply sumQ_zero. apply Forall_forall. intros x Hx.
+  apply in_map_iff in Hx. destruct Hx as (c & <- & Hc). apply in_map_iff in Hc.
+  destruct Hc as (pc & <- & _). apply kin_col_zero.
+Qed.
+
+(* a source file without velocities: kin_old is the kinetic energy of the zero velocities the
+   reader returns, i.e. 0, and dek is reported as infinite (GROMACS uses the stored system.ekin
+   instead, see dek_consistent_std) -- for either form of the GROMACS special case *)
+Lemma modify_file_novel_kin_old e special dflt mass c ek zm sig z :
+  c_vel c = None -> e <> Gromacs ->
+  let r := modify_file e special dflt mass c ek zm sig z in
+  (exists k, r_kin_old r = Some k /\ k == 0) /\ r_dek r = None.
+Proof.
+  intros Hv He. cbv zeta. unfold modify_file. cbv zeta. cbn [r_kin_old r_dek].
+  unfold modify_std, read_cfile. rewrite Hv. cbn [r_kin_old r_dek f_vel].
+  pose proof (kinetic_zero_cols mass (c_pos c)) as K.
+  destruct e; try (exfalso; apply He; reflexivity);
+    (split; [eexists; split; [reflexivity|exact K]|]; rewrite (Qeq_eq_bool _ _ K); reflexivity).
+Qed.
+
+(* the GROMACS special case is needed: with a test that never fires, a frame without VELOCITY
+   block gets an EMPTY velocity block (it reads back as all zeros: kinetic energy 0) while a
+   non-zero kin_new is reported.  Witness: masses 1 and 4, draws 1 and 2 along x. *)
+Definition nv_mass : list Q := [1; 4].
+Definition nv_file : cfile := mkCfile [[0; 1]; [0; 0]; [0; 0]] None (Some [3; 3; 3]) [1%Z; 2%Z].
+Definition nv_sig : list Q := [1; 1 # 2].
+Definition nv_z : list col := [[1; 2]; [0; 0]; [0; 0]].
+
+Lemma gromacs_novel_test_never_fires_refuted :
+  c_vel nv_file = None /\
+  let r := modify_file Gromacs false [] nv_mass nv_file (Some 1) (Some false) nv_sig nv_z in
+  f_vel (r_frame r) = [[]; []; []] /\
+  ~ r_kin_new r == kinetic nv_mass (f_vel (r_frame r)).
+Proof.
+  split; [reflexivity|]. cbv zeta. split; [vm_compute; reflexivity|].
+  intros H. apply Qeq_bool_iff in H. vm_compute in H. discriminate.
+Qed.
+
+Lemma gromacs_novel_witness_special :
+  let r := modify_file Gromacs true [] nv_mass nv_file (Some 1) (Some false) nv_sig nv_z in
+  Forall2 (Forall2 Qeq) (f_vel (r_frame r)) [[1; 1]; [0; 0]; [0; 0]] /\ r_kin_new r == 5 # 2 /\ r_dek r = Some (r_kin_new r - 1).
+Proof.
+  cbv zeta. split; [|split].
+  - vm_compute. repeat constructor.
+  - apply Qeq_bool_iff. vm_compute. reflexivity.
+  - reflexivity.
+Qed.
